@@ -1379,8 +1379,8 @@ Lemma join_dims_nodup d2 : forall d1,
 Proof.
   unfold join_dims. induction d2 as [|d d2 IH]; intros d1 N1 N2 Hc; simpl; auto.
   inversion N2 as [|n l Hnotin N2']; subst. destruct (var_mem d d1) eqn:Em.
-  - apply IH; auto. intros v w Hv Hw. apply Hc; auto. now right.
-  - apply IH; auto.
+  - apply IH; auto; intros v w Hv Hw; apply Hc; auto; now right.
+  - apply IH; [| exact N2' |].
     + rewrite names_app. simpl. apply NoDup_snoc; auto. intro Hin.
       unfold names in Hin. apply in_map_iff in Hin as [v [En Hv]].
       assert (v = d) by (apply Hc; auto; now left). subst v.
